@@ -149,7 +149,7 @@ impl Block {
                                 index + offset,
                                 TriviaKind::Whitespace.with_content("\n".repeat(gap)),
                             );
-                            offset += gap;
+                            offset += 1;
                         }
                     }
 
